@@ -76,6 +76,8 @@ type Result struct {
 	Ent     *EntityR  `json:"ent,omitempty"`
 	Ents    []EntityR `json:"ents,omitempty"`
 	Broken  string    `json:"broken,omitempty"` // harness problem (child died, ...)
+	// Changed: an EARLIER Get result that the caller still holds is no longer what it was when it was returned
+	Changed string `json:"changed,omitempty"`
 }
 
 // ---------------------------------------------------------------------------------------------
@@ -103,6 +105,8 @@ func errKind(err error) string {
 }
 
 type local struct {
+	held []heldRead
+	nget int
 	dir string
 	st  util.Storage
 	d   db.Database
@@ -147,7 +151,28 @@ func cloneBytes(b []byte) []byte {
 	return append([]byte{}, b...)
 }
 
+// held: results of earlier Get calls the caller keeps (the slice exactly as returned, and what it contained then)
+type heldRead struct {
+	key       string
+	got, copy []byte
+	age       int
+}
+
 func (l *local) Do(op Op) (res Result) {
+	defer func() {
+		// whatever the operation was: what earlier reads returned is the caller's and must not have changed
+		keep := l.held[:0]
+		for _, h := range l.held {
+			if !bytes.Equal(h.got, h.copy) && res.Changed == "" {
+				res.Changed = fmt.Sprintf("the %d bytes returned by Get(%q) %d operations ago have changed under the caller while it performed %s", len(h.copy), h.key, h.age+1, op.Kind)
+				continue
+			}
+			if h.age++; h.age < 3 {
+				keep = append(keep, h)
+			}
+		}
+		l.held = keep
+	}()
 	fail := func(err error) {
 		if err != nil {
 			res.Failed, res.Err, res.ErrKind = true, err.Error(), errKind(err)
@@ -169,7 +194,11 @@ func (l *local) Do(op Op) (res Result) {
 				if v == nil {
 					res.Val = nil
 				}
-				scribble(v)
+				if l.nget++; l.nget%2 == 0 {
+					scribble(v) // what was returned is the caller's to overwrite
+				} else if len(v) > 0 {
+					l.held = append(l.held, heldRead{key: string(op.Key), got: v, copy: res.Val}) // or to keep
+				}
 			}
 		case "del":
 			fail(l.st.Delete(string(op.Key)))
@@ -842,6 +871,9 @@ func run(h *History, dir string, st stats, tag string, segments *int) (fs []find
 		if res.Broken != "" {
 			c.broken = res.Broken
 			break
+		}
+		if res.Changed != "" {
+			c.add(finding{Sig: "storage:get-result-changed-later", OpIndex: i, What: res.Changed})
 		}
 		switch op.Kind {
 		case "set":
